@@ -80,6 +80,14 @@ for pt in range(spec['points']):
             mdl = ss.models[mname]
             if mdl.n > 0:
                 mdl.alter('D', mdl.idx.v[0], float(mdl.D.v[0]) + 1.5)
+    if spec.get('model_off') and pt == 1:
+        # every device of one model goes out of service after its Jacobian has been evaluated in service
+        for mname in ('Shunt', 'TGOV1', 'EXDC2', 'ESST3A', 'IEEEST'):
+            mdl = ss.models[mname]
+            if mdl.n > 0:
+                for i in list(mdl.idx.v):
+                    mdl.alter('u', i, 0)
+                break
     if spec.get('island') and pt == 1:
         ss.Line.alter('u', 'LRB', 0)
         ss.connectivity(info=False)
@@ -91,6 +99,16 @@ for pt in range(spec['points']):
     if patterns is None:
         patterns = pat
     same = all(sorted(zip(*pat[k])) == sorted(zip(*patterns[k])) for k in pat)
+    # every entry of the updated matrices lies in the index pattern stored for this routine (dae.triplets)
+    outside = []
+    for k in ('fx', 'fy', 'gx', 'gy'):
+        stored = set(zip((int(i) for i in dae.triplets.ijac[k]), (int(j) for j in dae.triplets.jjac[k])))
+        mat = getattr(dae, k)
+        for i, j, v in zip(mat.I, mat.J, mat.V):
+            if v != 0 and (int(i), int(j)) not in stored:
+                rn = (dae.x_name if k[0] == 'f' else dae.y_name)[int(i)]
+                cn = (dae.x_name if k[1] == 'x' else dae.y_name)[int(j)]
+                outside.append([k, rn, cn])
     J = np.block([[dense(dae.fx), dense(dae.fy)], [dense(dae.gx), dense(dae.gy)]])
     xy0 = np.concatenate([dae.x, dae.y]).copy()
     def flags():
@@ -129,7 +147,7 @@ for pt in range(spec['points']):
     items = []
     for r, c in bad[:400]:
         items.append([names[r], names[c], float(J[r, c]), float(Jfd[r, c])])
-    out['points'].append({'pattern_same': bool(same), 'maxdiff': float(d.max()), 'nbad': int(len(bad)), 'bad': items,
+    out['points'].append({'outside_pattern': outside[:5], 'n_outside': len(outside), 'pattern_same': bool(same), 'maxdiff': float(d.max()), 'nbad': int(len(bad)), 'bad': items,
                           'nnz': int(np.count_nonzero(J)), 'finite': bool(np.isfinite(J).all()), 'skipped_cols': skipped_cols, 'pegged': len(pegged)})
 out['n'], out['m'] = int(n), int(m)
 out['J_hash'] = float(np.abs(J).sum())
@@ -161,22 +179,33 @@ def assembled_stream(ctx):
         for ipadd in (1, 0):
             specs.append({'case': case, 'ipadd': ipadd, 'seed': seed, 'points': ctx.n(2, 4), 'amp': 1e-3, 'toggle': True})
         specs.append({'case': case, 'ipadd': 1, 'seed': seed + 1, 'points': 2, 'amp': 1e-3, 'island': True})
+        specs.append({'case': case, 'ipadd': 1, 'seed': seed + 2, 'points': 2, 'amp': 1e-3, 'model_off': True})
+    if not ctx.thorough:
+        # a case with models that take part in the power flow only (DC network, VSC): their equations stay in the
+        # residual during the time-domain simulation and the Jacobian has to follow them there too
+        specs.append({'case': 'kundur/kundur_vsc.xlsx', 'ipadd': 1, 'seed': ctx.rng.randrange(1 << 30), 'points': 2,
+                      'amp': 1e-3, 'toggle': True})
     with mp.get_context('fork').Pool(8) as pool:
         res = pool.map(fd_job, specs)
     by_case = {}
     for sp, r in zip(specs, res):
         key = {k: sp[k] for k in ('case', 'ipadd', 'seed')}
         key['island'] = bool(sp.get('island'))
+        key['model_off'] = bool(sp.get('model_off'))
         if 'error' in r:
             ctx.oracle_fail('assembled-run-raises', 'assembling the Jacobian raised: ' + r['error'][-200:], key)
             continue
-        if not sp.get('island'):
+        if not sp.get('island') and not sp.get('model_off'):
             by_case.setdefault(sp['case'], {})[sp['ipadd']] = r
         for k, pt in enumerate(r['points']):
             ctx.case(json.dumps(dict(key, point=k), sort_keys=True), dict(key, point=k, maxdiff=pt['maxdiff'], nnz=pt['nnz']))
             ctx.count('assembled_points')
             ctx.count('assembled_entries', pt['nnz'])
             ctx.count('columns_skipped_nonsmooth', pt['skipped_cols'])
+            if pt.get('n_outside'):
+                ctx.oracle_fail('entry-outside-stored-pattern', '%s: %d non-zero Jacobian entries lie outside the stored index pattern, e.g. %s: d(%s)/d(%s)'
+                                % (sp['case'], pt['n_outside'], pt['outside_pattern'][0][0], pt['outside_pattern'][0][1], pt['outside_pattern'][0][2]),
+                                dict(key, point=k))
             if not pt['pattern_same']:
                 ctx.oracle_fail('sparsity-pattern-changed', 'the stored index pattern of the Jacobian changed between updates', dict(key, point=k))
             if not pt['finite']:
